@@ -599,6 +599,36 @@ func runC01(r *Runner) string {
 			r.DoMode("tx.dec", []string{hx(r.mutate(enc))}, "tx-malformed", false, "", DriftFull)
 		}
 	}
+	// transactions whose serialization is longer than 1,000,000 bytes (every script and witness item within
+	// the limits the decoder checks): alone, and first in a stream
+	{
+		big := func(kind int) *tx.Tx {
+			t, _ := r.genTx(2, 2)
+			for len(t.Inputs) < 2 {
+				t.Inputs = append(t.Inputs, t.Inputs[0].Clone())
+			}
+			switch kind {
+			case 0:
+				t.Witnesses = make([]tx.Witness, len(t.Inputs))
+				for j := range t.Witnesses {
+					t.Witnesses[j] = tx.Witness{}
+				}
+				t.Witnesses[0] = tx.Witness{r.bytesN(400000), r.bytesN(400000), r.bytesN(200001 + r.rng.Intn(50))}
+			case 1:
+				t.Inputs[0].Script = r.bytesN(600000)
+				t.Inputs[1].Script = r.bytesN(400000 + r.rng.Intn(200000))
+			}
+			return t
+		}
+		for kind := 0; kind < 2; kind++ {
+			t := big(kind)
+			r.Do("tx.dec", []string{hx(append(t.Bytes(), r.suffix()...))}, "tx-over-1MB", true, fmt.Sprintf("%d bytes", len(t.Bytes())))
+		}
+		t := big(r.rng.Intn(2))
+		small, _ := r.genTx(2, 2)
+		buf := append(append(t.Bytes(), small.Bytes()...), 0xde, 0xad, 0xbe, 0xef)
+		r.Do("stream.dec", []string{"2", hx(buf)}, "stream-over-1MB", true, "")
+	}
 	// back-to-back objects followed by a sentinel
 	for i := 0; i < r.N(400, 20000); i++ {
 		k := 1 + r.rng.Intn(4)
